@@ -482,5 +482,6 @@ PLAN["C20"] = dict(
 
 # native coverage-guided fuzzing: thorough tier only (cannot be seeded; the saved input is the reproducible unit)
 for _p, _t in (("C01", "FuzzC01"), ("C02", "FuzzC02"), ("C03", "FuzzC03"), ("C04", "FuzzC04"), ("C14", "FuzzC14"),
-               ("C18", "FuzzC14"), ("C20", "FuzzC20")):
+               ("C18", "FuzzC14"), ("C20", "FuzzC20"), ("C05", "FuzzC05"), ("C11", "FuzzC11"), ("C12", "FuzzC12"),
+               ("C13", "FuzzC13")):
     PLAN[_p]["thorough"].append(dict(kind="fuzz", test=_t, fuzztime="120s", solo=True, timeout=600))
